@@ -16,6 +16,9 @@ CLAIMS = {
  "C13": ("Publish machine at publish-point granularity; C13_statement proved for all traces, all completion orders and all diagnostics functions on the guarded machine (the code after the fix commit); the unguarded machine is refuted. The tie enumerates every release permutation of bursts of 2..4 changes on two documents and random interleaved traces through a publish-point hook.",
          "Trusted: Coq kernel+VM; the hook; serialisation by publishMu read from the code; Go scheduler/memory model not modelled (orders finer than the publish point).",
          "Coq invariant proof over all traces + exhaustive small-burst schedule enumeration against the implementation", "5 C13"),
+ "C17": ("Semantic-token transport modelled (uint32 delta encoding, range filter, edit computation, process-global result cache); C17_delta proved for every tokenizer and every history with deltas quoting current, stale, foreign or unknown ids; C17_range/decode-encode proved for all position-sorted token lists. Every run replays request histories on up to 3 documents against the implementation, reconstructs the client's array from its answers and checks token geometry (order, overlap, inside line, legend, non-zero length) with line lengths in UTF-16 units.",
+         "Trusted: Coq kernel+VM; the tokenizer is a parameter at this level (lexeme-exact coverage of each token kind is not yet modelled: geometry is checked on the implementation's output only); known finding nonascii_columns_and_lengths; zero-length tokens were repaired.",
+         "Coq invariant proof over all request histories + client-reconstruction oracle on the implementation", "5 C17"),
  "C19": ("Settings parsing/normalisation is modelled in Gallina; 11 theorems (totality, effectiveness, frame, wrapper, defaults, sequences) are proved for all JSON payloads and all sequences; the model is tied to the code by running both on generated payload sequences through Initialize and workspace/configuration.",
          "Trusted: Coq kernel+VM, the hand transcription (checked by correspondence only), encoding/json, ASCII-only TrimSpace/ToLower model, read-only hook VerifGetSettings; refreshes applied serially.",
          "Coq proof over Gallina model + differential correspondence (vm_compute)", "5 C19"),
